@@ -374,17 +374,18 @@ Proof.
 Qed.
 
 (* the unchecked walk on a stream headed by p's code, with enough bits after it for every
-   stride (5 suffice: a stride of at most 6 bits starts before the end of the code):
+   stride (stride - 1 suffice: a stride of at most [stride] bits starts before the end of the
+   code):
    finds p, rewinds to the end of the code, never indexes beyond the stream *)
 Lemma usearch_ok ps p s0 : table_ok ps = true -> In p ps ->
-  (Nat.min 5 (max_code_len ps - length (p_code p)) <= length s0)%nat ->
+  (Nat.min (stride - 1) (max_code_len ps - length (p_code p)) <= length s0)%nat ->
   forall fuel dpt cands,
   cands = filter (fun q => compatible (p_code q) (zpad dpt (p_code p ++ s0))) ps ->
   (dpt <= length (p_code p ++ s0))%nat ->
-  (max_code_len cands - dpt <= 6 * fuel)%nat ->
+  (max_code_len cands - dpt <= stride * fuel)%nat ->
   usearch fuel cands dpt (p_code p ++ s0) = Ok (p, s0).
 Proof.
-  intros Hok Hin Hen. set (full := p_code p ++ s0).
+  intros Hok Hin Hen. set (full := p_code p ++ s0). pose proof stride_pos as Hs1.
   assert (Hpc : forall d, compatible (p_code p) (zpad d full) = true).
   { intros d. apply prefix_compatible_zpad. unfold full. apply is_prefix_of_app. }
   induction fuel as [|f IH]; intros dpt cands Hc Hd Hfuel.
@@ -419,7 +420,7 @@ Proof.
       clearbody cands. cbv zeta.
       assert (Ha : length (skipn dpt full) = (length (p_code p) + length s0 - dpt)%nat).
       { rewrite skipn_length. unfold full. rewrite app_length. reflexivity. }
-      set (t := Nat.min 6 (max_code_len cands - dpt)) in *.
+      set (t := Nat.min stride (max_code_len cands - dpt)) in *.
       assert (Ht : (1 <= t <= length (skipn dpt full))%nat) by lia.
       destruct (Nat.ltb (length (skipn dpt full)) t) eqn:El; [apply Nat.ltb_lt in El; lia|].
       apply IH.
@@ -429,14 +430,15 @@ Proof.
           (fun p0 => compatible (skipn dpt (p_code p0)) (firstn t (skipn dpt full))) cands). lia.
 Qed.
 
-(* BodyL.tsearch_ok with the sharper "5 bits after the code" *)
+(* BodyL.tsearch_ok with the sharper "stride - 1 bits after the code" *)
 Lemma tsearch_ok5 tb p s0 : forall fuel cands dpt,
   In p cands -> pairwise_nonprefix (map p_code cands) ->
   Forall (fun q => compatible (p_code q) (firstn dpt (p_code p ++ s0)) = true) cands ->
-  (max_code_len cands - dpt <= 6 * fuel)%nat ->
-  (Nat.min 5 (max_code_len cands - length (p_code p)) <= length s0)%nat ->
+  (max_code_len cands - dpt <= stride * fuel)%nat ->
+  (Nat.min (stride - 1) (max_code_len cands - length (p_code p)) <= length s0)%nat ->
   tsearch fuel tb cands dpt (skipn dpt (p_code p ++ s0)) = Ok p.
 Proof.
+  pose proof stride_pos as Hs1.
   induction fuel as [|f IH]; intros cands dpt Hin HP HC Hfuel Hen.
   - destruct cands as [|q [|q2 r]]; [destruct Hin| |].
     + destruct Hin as [->|[]]. reflexivity.
@@ -452,14 +454,16 @@ Proof.
       set (full := p_code p ++ s0) in *.
       assert (Ha : length (skipn dpt full) = (length (p_code p) + length s0 - dpt)%nat).
       { rewrite skipn_length. unfold full. rewrite app_length. reflexivity. }
-      set (t := Nat.min 6 (max_code_len cands - dpt)) in *.
+      set (t := Nat.min stride (max_code_len cands - dpt)) in *.
       assert (Ht : (1 <= t <= length (skipn dpt full))%nat) by lia.
-      assert (Ht6 : (t <= 6)%nat) by lia.
-      assert (Ha70 : length (firstn 70 (skipn dpt full)) = Nat.min 70 (length (skipn dpt full)))
+      assert (Ht6 : (t <= stride)%nat) by lia.
+      assert (Ha70 : length (firstn (64 + stride) (skipn dpt full))
+                     = Nat.min (64 + stride) (length (skipn dpt full)))
         by apply firstn_length.
-      set (a := length (firstn 70 (skipn dpt full))) in *.
+      set (a := length (firstn (64 + stride) (skipn dpt full))) in *.
       destruct (Nat.eqb a 0) eqn:Ea; [apply Nat.eqb_eq in Ea; lia|].
-      set (j := if Nat.ltb a 70 then N.to_nat ((tb - Nlen (skipn dpt full)) mod 64) else O).
+      set (j := if Nat.ltb a (64 + stride)
+                then N.to_nat ((tb - Nlen (skipn dpt full)) mod 64) else O).
       clearbody j.
       assert (Hbr : (if Nat.leb (t + j) 64 then Nat.min t a else t) = t).
       { destruct (Nat.leb (t + j) 64); [lia|reflexivity]. }
@@ -484,7 +488,7 @@ Qed.
 
 Theorem read_code_at_enough5 : forall tb ps p s,
   table_ok ps = true -> (max_code_len ps <= 40)%nat -> In p ps ->
-  (Nat.min 5 (max_code_len ps - length (p_code p)) <= length s)%nat ->
+  (Nat.min (stride - 1) (max_code_len ps - length (p_code p)) <= length s)%nat ->
   read_code_at tb ps (p_code p ++ s) = Ok (p, s).
 Proof.
   intros tb ps p s Hok HM Hin Hen. unfold read_code_at.
@@ -496,20 +500,20 @@ Proof.
     symmetry. apply Nat.leb_le. rewrite firstn_length, app_length.
     pose proof (max_code_len_In ps p Hin). lia.
   - apply Forall_forall. intros q _. apply compatible_nil_r.
-  - lia.
+  - pose proof stride_reach. lia.
   - exact Hen.
 Qed.
 
 Theorem u_read_code_enough5 : forall ps p s,
   table_ok ps = true -> (max_code_len ps <= 40)%nat -> In p ps ->
-  (Nat.min 5 (max_code_len ps - length (p_code p)) <= length s)%nat ->
+  (Nat.min (stride - 1) (max_code_len ps - length (p_code p)) <= length s)%nat ->
   u_read_code ps (p_code p ++ s) = Ok (p, s).
 Proof.
   intros ps p s Hok HM Hin Hen. unfold u_read_code.
   apply (usearch_ok ps p s Hok Hin Hen).
   - cbn [zpad]. symmetry. apply filter_nil_compat.
   - lia.
-  - lia.
+  - pose proof stride_reach. lia.
 Qed.
 
 (* every stream at least as long as the longest code is headed by a code of the table *)
@@ -598,7 +602,7 @@ Lemma guard_code w ps mb mo s :
   table_ok ps = true -> (max_code_len ps <= 40)%nat ->
   max_bits_block w ps = Some mb -> max_overshoot ps = Some mo -> mb + mo <= Nlen s ->
   exists p s0, In p ps /\ s = p_code p ++ s0 /\
-    (Nat.min 5 (max_code_len ps - length (p_code p)) <= length s0)%nat.
+    (Nat.min (stride - 1) (max_code_len ps - length (p_code p)) <= length s0)%nat.
 Proof.
   intros Hok HM Hmb Hmo Hg.
   assert (Hne : ps <> []).
@@ -613,7 +617,7 @@ Proof.
   pose proof (max_overshoot_In ps mo p Hmo Hin) as O.
   assert (Ls : length s = (length (p_code p) + length s0)%nat) by (rewrite Hs at 1; apply app_length).
   unfold max_bits_read, max_bits_overshot, max_bits_per_offset in *.
-  change Consts.MAX_PREFIX_TABLE_SIZE_LOG with 6 in O.
+  rewrite <- stride_of_nat in O.
   change Consts.MAX_ENTRIES with 16777215 in B.
   change Consts.BITS_TO_ENCODE_N_ENTRIES with 24 in B.
   unfold Nlen in *.
@@ -710,7 +714,7 @@ Local Transparent read_code_at read_offset read_varint u_read_code u_read_offset
    run without Panic, return what the checked loop returns, consume at most
    m * max_bits_block real bits, and their result does not depend on what follows the real
    bits ([pad] arbitrary, [] included): neither the reads nor the table look-ahead (a full
-   stride of up to 6 bits, then a rewind) ever reach beyond the real bits. *)
+   stride of up to [stride] bits, then a rewind) ever reach beyond the real bits. *)
 Theorem u_blocks_within w phys tb ps mb mo pad :
   fast_table w phys ps -> max_bits_block w ps = Some mb -> max_overshoot ps = Some mo ->
   forall m room s,
